@@ -155,6 +155,13 @@ impl BuildHasher for SimBuildHasher {
     fn build_hasher(&self) -> SimHasher {
         SimHasher { plan: self.plan.clone(), id: 0 }
     }
+    /// The provided method, overridden with a *different* deterministic function: a collection may hash through
+    /// either way, but must not hash some keys one way and re-hash stored ones the other way.
+    fn hash_one<T: std::hash::Hash>(&self, x: T) -> u64 {
+        let mut h = self.build_hasher();
+        x.hash(&mut h);
+        h.finish().rotate_left(17) ^ 0x5bd1_e995_9e37_79b9
+    }
 }
 
 impl Hasher for SimHasher {
